@@ -429,3 +429,307 @@ def well_posed(X, res):
     out["SigmaPD"] = pd
     out["NuRange"] = bool(nu is not None and not math.isnan(nu) and nu > 0)
     return out
+
+
+# ----------------------------------------------------------------------------------------------------------------
+# projection: observed runs -> StudentPair.tla items
+# ----------------------------------------------------------------------------------------------------------------
+C_INIT = 64.0  # acceptance for the initial estimates, units of eps*K (worst observed 1.9, see evidence)
+C_ITER = 2.0e4  # acceptance for per-iteration quantities, units of eps*K*max(1, nu_max) (worst observed ~7e2)
+
+
+def _finite_nus(run):
+    return [it["nu"] for it in run["its"] if it["nu"] is not None and math.isfinite(it["nu"])]
+
+
+def step_conformance(run, X):
+    """Truth values of 'logged output = the specification's definition applied to the logged input' for every
+    iteration of ONE run, and the exact loop-test facts."""
+    n, p = X.shape
+    out = []
+    last_nu = 20.0
+    for k, it in enumerate(run["its"], start=1):
+        r = {}
+        S_in, diffs, mu_in, delta = it["Sigma_in"], it["diffs"], it["mu_in"], it["delta"]
+        centred = mu_in is not None and diffs.shape == (p, n) and np.array_equal(diffs, X.T - mu_in.reshape(-1, 1))
+        dok = False
+        if centred and delta is not None and delta.shape == (n,):
+            try:
+                with np.errstate(all="ignore"):
+                    ref = np.sum(diffs * np.linalg.solve(S_in, diffs), 0)
+                dok = bool(np.all(np.abs(ref - delta) <= 1e-12 * (np.abs(ref) + 1.0)))
+            except np.linalg.LinAlgError:
+                dok = False
+        r["dok"] = dok
+        tpt = it["tpt"]
+        ex, margin = branch_oracle(delta, p, tpt) if delta is not None and delta.shape == (n,) else ("tie", 0.0)
+        r["ex"], r["margin"] = ex, margin
+        dmax = float(np.max(delta)) if delta is not None and delta.size and np.all(np.isfinite(delta)) else 0.0
+        r["blind"] = bool(tpt is not None and np.isfinite(tpt) and tpt + p == tpt and tpt + dmax == tpt)
+        r["tieb"] = ex == "tie"
+        br = it["branch"]
+        nu = it["nu"]
+        if br == "root":
+            ok, f0 = root_ok(nu, delta, p)
+            r["rok"], r["f_at_root"] = ok, f0
+            with np.errstate(all="ignore"):
+                w = (nu + p) / (nu + delta)
+                S_ref = np.dot(w * diffs, diffs.T) / n
+                mu_ref = np.sum(w * X.T, 1) / np.sum(w)
+            S_out, mu_out = it["Sigma_out"], it["mu_out"]
+            sd = np.sqrt(np.abs(np.diag(S_ref)))
+            r["sok"] = bool(S_out is not None and S_out.shape == (p, p) and np.all(np.abs(S_out - S_ref) <= 1e-11 * np.outer(sd, sd)))
+            r["mok"] = bool(mu_out is not None and mu_out.shape == (p,) and np.all(np.abs(mu_out - mu_ref) <= 8 * n * EPS * np.max(np.abs(X), axis=0)))
+        elif br == "inf":
+            r["rok"], r["f_at_root"] = True, 0.0
+            r["sok"] = bool(it["Sigma_out"] is not None and _same_bits(it["Sigma_out"], S_in))
+            r["mok"] = bool(it["mu_out"] is not None and mu_in is not None and _same_bits(it["mu_out"], mu_in))
+        else:
+            r["rok"] = r["sok"] = r["mok"] = True
+            r["f_at_root"] = 0.0
+        # the loop test evaluated after this iteration
+        ta = it["test_after"]
+        if it["decision"] in ("ret", "raise"):
+            r["tst"], r["over"], r["test"] = True, False, None
+        else:
+            r["tst"] = bool(ta is not None and nu is not None and ta == abs(last_nu - nu))
+            r["over"] = bool(ta is not None and ta > TOL_NU)
+            r["test"] = ta
+        if nu is not None:
+            last_nu = nu
+        out.append(r)
+    return out
+
+
+def pair_tolerances(g, X, Y, A, B):
+    KA, KB = condition(X)[0], condition(Y)[0]
+    K = max(KA, KB)
+    numax = max([1.0] + _finite_nus(A) + _finite_nus(B))
+    exact = bool(X.shape[1] == 1 and g["dyadic"] and not np.any(g["t"]))
+    if exact:
+        return {"K": K, "numax": numax, "exact": True, "init": 0.0, "iter": 0.0}
+    return {"K": K, "numax": numax, "exact": False, "init": C_INIT * EPS * K, "iter": C_ITER * EPS * K * numax}
+
+
+def project_pair(g, X, Y, A, B):
+    """-> (item for StudentPair.tla, diagnostics).  Tags: run A carries 0; run B carries 0 when its value equals the
+    image under g of run A's value up to the pair's tolerance, 1 otherwise."""
+    tol = pair_tolerances(g, X, Y, A, B)
+    ca, cb = step_conformance(A, X), step_conformance(B, Y)
+    worst = {"mu0": 0.0, "S0": 0.0, "delta": 0.0, "nu": 0.0, "mu": 0.0, "S": 0.0}
+
+    def tag(e, t, key):
+        worst[key] = max(worst[key], e if math.isfinite(e) else 1e300)
+        return 0 if e <= t else 1
+
+    def init_rec(run, is_b):
+        S0, mu0 = run["Sigma0"], run["mu0"]
+        pd = False
+        if S0 is not None and np.all(np.isfinite(S0)):
+            try:
+                np.linalg.cholesky(S0)
+                pd = bool(np.linalg.eigvalsh((S0 + S0.T) / 2).min() > 0)
+            except np.linalg.LinAlgError:
+                pd = False
+        rec = {"mu": 0, "sig": 0, "pd": pd, "fin": bool(mu0 is not None and np.all(np.isfinite(mu0)))}
+        if is_b:
+            rec["mu"] = tag(err_mu(g, A["mu0"], B["mu0"], B["Sigma0"]), tol["init"], "mu0")
+            rec["sig"] = tag(err_sigma(g, A["Sigma0"], B["Sigma0"]), tol["init"], "S0")
+        return rec
+
+    def its_rec(run, conf, is_b):
+        out = []
+        for k, (it, c) in enumerate(zip(run["its"], conf)):
+            nu = it["nu"]
+            band = 0.0
+            if nu is not None and math.isfinite(nu):
+                band = 2.0 * tol["iter"] * abs(nu) * max(1.0, abs(nu)) + 1e-9 * TOL_NU
+            rec = {"delta": 0, "nu": 0, "sig": 0, "mu": 0, "br": it["branch"], "ex": c["ex"], "blind": c["blind"], "dec": it["decision"],
+                   "dok": c["dok"], "rok": c["rok"], "sok": c["sok"], "mok": c["mok"], "tst": c["tst"], "over": c["over"],
+                   "tieb": c["tieb"], "tiec": bool(c["test"] is not None and abs(c["test"] - TOL_NU) <= band)}
+            if is_b and k < len(A["its"]):
+                a = A["its"][k]
+                rec["delta"] = tag(err_delta(a["delta"], it["delta"]), tol["iter"], "delta")
+                if a["branch"] == it["branch"]:
+                    rec["nu"] = tag(err_nu(a["nu"], nu), tol["iter"], "nu")
+                    rec["sig"] = tag(err_sigma(g, a["Sigma_out"], it["Sigma_out"]), tol["iter"], "S")
+                    rec["mu"] = tag(err_mu(g, a["mu_out"], it["mu_out"], it["Sigma_out"]), tol["iter"], "mu")
+            out.append(rec)
+        return out
+
+    def fin_rec(run, data, is_b):
+        res = run["res"]
+        last = True
+        if run["its"] and res["raised"] is None:
+            li = run["its"][-1]
+            last = bool(_same_bits(li["mu_out"], res["mu"]) and _same_bits(li["Sigma_out"], res["Sigma"]) and li["nu"] is not None
+                        and (li["nu"] == res["nu"]))
+        rec = {"mu": 0, "sig": 0, "nu": 0, "raised": res["raised"] is not None, "last": last, "wp": well_posed(data, res)}
+        if is_b:
+            ra = A["res"]
+            if ra["raised"] is None and res["raised"] is None:
+                rec["mu"] = 0 if err_mu(g, ra["mu"], res["mu"], res["Sigma"]) <= tol["iter"] else 1
+                rec["sig"] = 0 if err_sigma(g, ra["Sigma"], res["Sigma"]) <= tol["iter"] else 1
+                rec["nu"] = 0 if err_nu(ra["nu"], res["nu"]) <= tol["iter"] else 1
+            elif (ra["raised"] is None) != (res["raised"] is None):
+                rec["mu"] = rec["sig"] = rec["nu"] = 1
+        return rec
+
+    item = {"kind": "pair", "max": MAX_ITER,
+            "a": {"init": init_rec(A, False), "its": its_rec(A, ca, False), "fin": fin_rec(A, X, False)},
+            "b": {"init": init_rec(B, True), "its": its_rec(B, cb, True), "fin": fin_rec(B, Y, True)}}
+    diag = {"tol": tol, "worst": worst, "lenA": len(A["its"]), "lenB": len(B["its"]),
+            "nuA": A["res"]["nu"], "nuB": B["res"]["nu"], "raisedA": A["res"]["raised"], "raisedB": B["res"]["raised"],
+            "marginsA": [c["margin"] for c in ca[:3]], "f_at_root_max": max([c["f_at_root"] for c in ca + cb] + [0.0]),
+            "tptA": [it["tpt"] for it in A["its"][:1]]}
+    return item, diag
+
+
+def dof_class(v):
+    v = float(v)
+    if math.isnan(v):
+        return "nan"
+    if math.isinf(v):
+        return "inf"
+    return "pos" if v > 0 else "nonpos"
+
+
+# ----------------------------------------------------------------------------------------------------------------
+# ModeStatistics.from_particles / from_global observed from outside
+# ----------------------------------------------------------------------------------------------------------------
+def observe_modes(modes_mod, student_mod, u, w, labels=None, n_modes=None, fallback=7.5, seed=0, observe=True):
+    """Calls the real constructor with (a) the name `fit_mvstud` inside tempest.modes pointed at a wrapper that runs the
+    real fit (observed, see observe_fit) and records its input and raw output, (b) numpy.random.choice wrapped to record
+    the resampling indices.  Returns {"ms": object | None, "raised", "fits": [...], "choices": [...]}."""
+    fits, choices = [], []
+    real_fit = modes_mod.fit_mvstud
+    real_choice = np.random.choice
+
+    def fit(data, *a, **kw):
+        data = np.array(data, copy=True)
+        run = None
+        if observe and not a and not kw:
+            try:
+                run = observe_fit(student_mod, data, fit=real_fit)
+            except ObservationError:
+                raise
+        if run is not None and run["res"]["raised"] is None:  # observe_fit has shown this to be bit-identical to the plain call
+            out = (run["res"]["mu"].copy(), run["res"]["Sigma"].copy(), run["res"]["nu"])
+        else:
+            out = real_fit(np.array(data, copy=True), *a, **kw)
+        fits.append({"data": data, "out": (np.array(out[0], dtype=float, copy=True), np.array(out[1], dtype=float, copy=True), float(out[2])), "run": run})
+        return out
+
+    def choice(a, size=None, replace=True, p=None):
+        r = real_choice(a, size=size, replace=replace, p=p)
+        choices.append({"a": a, "idx": np.array(r, copy=True), "p": None if p is None else np.array(p, copy=True)})
+        return r
+
+    np.random.seed(seed)
+    modes_mod.fit_mvstud = fit
+    np.random.choice = choice
+    ms, raised = None, None
+    buf = io.StringIO()
+    try:
+        import warnings
+
+        with contextlib.redirect_stdout(buf), np.errstate(all="ignore"), warnings.catch_warnings():
+            warnings.simplefilter("ignore")
+            if labels is None:
+                ms = modes_mod.ModeStatistics.from_global(u, w, dof_fallback=fallback)
+            elif n_modes is None:
+                ms = modes_mod.ModeStatistics.from_particles(u, w, labels, dof_fallback=fallback)
+            else:
+                ms = modes_mod.ModeStatistics.from_particles(u, w, labels, dof_fallback=fallback, n_modes=n_modes)
+    except Exception as ex:  # noqa
+        raised = type(ex).__name__ + ": " + str(ex)[:160]
+    finally:
+        modes_mod.fit_mvstud = real_fit
+        np.random.choice = real_choice
+    return {"ms": ms, "raised": raised, "fits": fits, "choices": choices}
+
+
+def project_modes(obs, u, w, labels, n_modes, fallback):
+    """-> the "m" record of a StudentPair.tla "modes" item."""
+    ms = obs["ms"]
+    if labels is None:
+        groups = [np.arange(len(u))]
+    else:
+        labs = np.unique(labels) if n_modes is None else np.arange(n_modes)
+        groups = []
+        for lab in labs:
+            idx = np.where(np.asarray(labels) == lab)[0]
+            groups.append(idx if len(idx) else np.arange(len(labels)))
+    m = {"raised": obs["raised"] is not None, "modes": [], "kok": False}
+    if ms is None:
+        return m
+    K = len(groups)
+    m["kok"] = bool(ms.means.shape[0] == K and ms.covariances.shape[0] == K and ms.degrees_of_freedom.shape == (K,)
+                    and len(obs["fits"]) == K and len(obs["choices"]) == K)
+    wn = np.asarray(w, dtype=float)
+    for j in range(min(K, ms.means.shape[0], len(obs["fits"]))):
+        f = obs["fits"][j]
+        mean, cov, raw = f["out"]
+        stored = float(ms.degrees_of_freedom[j])
+        C = np.asarray(ms.covariances[j], dtype=float)
+        inv = np.asarray(ms.inv_covariances[j], dtype=float)
+        L = np.asarray(ms.chol_covariances[j], dtype=float)
+        d = C.shape[0]
+        sd = np.sqrt(np.abs(np.diag(C)))
+        with np.errstate(all="ignore"):
+            invfin = bool(np.all(np.isfinite(inv)))
+            cholfin = bool(np.all(np.isfinite(L)))
+            Cn = C / np.outer(sd, sd)  # scale-free forms
+            invn = inv * np.outer(sd, sd)
+            try:
+                cond = float(np.linalg.cond(Cn))
+            except Exception:
+                cond = math.inf
+            invok = bool(invfin and np.all(np.abs(invn @ Cn - np.eye(d)) <= 64 * d * EPS * max(cond, 1.0)))
+            cholok = bool(cholfin and np.allclose(L, np.tril(L)) and np.all(np.abs(L @ L.T - C) <= 64 * d * EPS * np.outer(sd, sd)))
+        ch = obs["choices"][j] if j < len(obs["choices"]) else None
+        grp = groups[j]
+        resok = False
+        if ch is not None:
+            idx = ch["idx"]
+            pw = wn[grp]
+            resok = bool(np.ndim(ch["a"]) == 0 and int(ch["a"]) == len(grp) and idx.shape == (4 * len(grp),) and np.all(pw[idx] > 0)
+                         and np.array_equal(f["data"], np.asarray(u)[grp][idx]))
+        m["modes"].append({"raw": dof_class(raw), "stored": dof_class(stored), "isfb": bool(stored == fallback),
+                           "israw": bool(stored == raw), "meanok": _same_bits(np.asarray(ms.means[j], dtype=float), mean),
+                           "covok": _same_bits(C, cov), "invfin": invfin, "invok": invok, "cholfin": cholfin, "cholok": cholok,
+                           "resok": resok})
+    return m
+
+
+DEGENERATE = ["constcoord", "collinear", "fewpoints", "allequal"]
+
+
+def make_degenerate(rng, what, d):
+    d = max(d, 2)
+    if what == "constcoord":
+        X = rng.standard_normal((6 * d, d))
+        X[:, rng.integers(0, d)] = 0.375
+        return X
+    if what == "collinear":
+        return rng.standard_normal((6 * d, 1)) * rng.uniform(0.5, 2, d) + rng.uniform(-1, 1, d)
+    if what == "fewpoints":
+        return rng.standard_normal((d, d))
+    if what == "allequal":
+        return np.tile(rng.uniform(0, 1, d), (5 * d, 1))
+    raise ValueError(what)
+
+
+def outcome(res_or_ms):
+    """'raised:<Type>' | 'finite' | 'non-finite-returned'"""
+    if isinstance(res_or_ms, dict) and "ms" in res_or_ms:
+        if res_or_ms["raised"]:
+            return "raised:" + res_or_ms["raised"].split(":")[0]
+        ms = res_or_ms["ms"]
+        ok = all(np.all(np.isfinite(np.asarray(a, dtype=float))) for a in (ms.means, ms.covariances, ms.degrees_of_freedom, ms.inv_covariances, ms.chol_covariances))
+        return "finite" if ok else "non-finite-in-ModeStatistics"
+    res = res_or_ms
+    if res["raised"]:
+        return "raised:" + res["raised"].split(":")[0]
+    ok = np.all(np.isfinite(res["mu"])) and np.all(np.isfinite(res["Sigma"])) and not math.isnan(res["nu"])
+    return "finite" if ok else "non-finite-returned"
